@@ -84,7 +84,7 @@ def compare(m, spec, rng, counters, bad, evals=EVALS, n_points=2, fd=True):
     names = spec["states"] + spec["params"] + ["t"]
     # the size of the model's individual flows and of their first derivatives: the scale against which a float residue of cancelling
     # contributions (e.g. 2.8e-17*X*mu) is judged
-    contrib = [ref.V[i_, k_] * ref.R[k_] for i_ in range(nS) for k_ in range(nE) if ref.V[i_, k_] != 0] + [o_ for o_ in ref.O if o_ != 0]
+    contrib = [c_ for c_ in ref.flow_terms() if c_ != 0]
     model_scale = list(contrib) + [sympy.diff(c_, v_) for c_ in contrib[:12] for v_ in ref.X]
     for ev, getter, strict in evals:
         exp = ref.sym(ev)
